@@ -69,7 +69,9 @@ type c02env struct {
 	vars     []int // variant draws of dynamic cases
 	extra    string
 	headBad  string
+	rerunBad string
 	isOption bool
+	wrapLib  bool // operands' own errors wrap the library's sentinel fp.ErrOptionEmpty
 }
 
 // checkHead: a Chain continuation at position p must receive the value of argument p-1.
@@ -117,6 +119,10 @@ func (e *c02env) err(p int) error {
 		return x
 	}
 	x := fmt.Errorf("pos%d", p)
+	if e.wrapLib {
+		// an operand's own error that happens to wrap a sentinel the library also uses must still come back unchanged
+		x = fmt.Errorf("pos%d: %w", p, fp.ErrOptionEmpty)
+	}
 	e.errs[p] = x
 	return x
 }
@@ -125,13 +131,13 @@ func (e *c02env) tagOfErr(err error) string {
 	if err == nil {
 		return "<nil error>"
 	}
-	if errors.Is(err, fp.ErrOptionEmpty) {
-		return "lib:empty"
-	}
 	for p, x := range e.errs {
 		if errors.Is(err, x) {
 			return fmt.Sprintf("pos%d", p)
 		}
+	}
+	if errors.Is(err, fp.ErrOptionEmpty) {
+		return "lib:empty"
 	}
 	var pe interface{ Panic() any }
 	if errors.As(err, &pe) {
@@ -215,8 +221,20 @@ func statetRet(e *c02env, p int, v int) fp.StateT[int, int] {
 	return statet.Pure[int](v)
 }
 func statetResOf[T any](e *c02env, t fp.StateT[int, T], conv func(T) int) c02res {
-	r, _ := t.Run(0)
-	return tryResOf(e, r, conv)
+	r, s1 := t.Run(0)
+	first := tryResOf(e, r, conv)
+	// a StateT is a value: executing it again from the same state must fail (or succeed) in the same way - a failure
+	// must not be lost because the value was run before. (Which callbacks run again is not compared: functions applied
+	// while the StateT was being built, e.g. the first stage of Compose, legitimately run once only.)
+	calls1 := append([]int(nil), e.calls...)
+	e.calls = e.calls[:0]
+	r2, s2 := t.Run(0)
+	second := tryResOf(e, r2, conv)
+	if e.rerunBad == "" && (second != first || s1 != s2) {
+		e.rerunBad = fmt.Sprintf("first execution: %s, final state %d; second execution of the same StateT from the same state: %s, final state %d", first, s1, second, s2)
+	}
+	e.calls = calls1
+	return first
 }
 func statetRes(e *c02env, t fp.StateT[int, int]) c02res { return statetResOf(e, t, fp.Id[int]) }
 
@@ -304,7 +322,7 @@ func execC02(r *sim.Run) {
 func c02Combinator(r *sim.Run) {
 	ci := r.Choose(len(c02cases), "case")
 	cs := &c02cases[ci]
-	e := &c02env{r: r, errs: map[int]error{}, fails: map[int]bool{}, isOption: strings.HasPrefix(cs.name, "option.")}
+	e := &c02env{r: r, errs: map[int]error{}, fails: map[int]bool{}, isOption: strings.HasPrefix(cs.name, "option."), wrapLib: r.Choose(4, "errorsWrapLibSentinel") == 3}
 	if cs.prep != nil {
 		cs.prep(e)
 	} else {
@@ -328,6 +346,7 @@ func c02Combinator(r *sim.Run) {
 			e.fails[p] = true
 		}
 		e.reset()
+		e.rerunBad = ""
 		want := 0
 		if cs.want != nil {
 			e.fails = map[int]bool{}
@@ -354,6 +373,10 @@ func c02Combinator(r *sim.Run) {
 		}
 		if e.headBad != "" {
 			r.Violate("chain-head:"+fam, "%s: %s", desc(), e.headBad)
+			return false
+		}
+		if e.rerunBad != "" {
+			r.Violate("rerun-differs:"+fam, "%s: %s", desc(), e.rerunBad)
 			return false
 		}
 		if got != expRes {
